@@ -48,6 +48,12 @@ theorem shipped_tool_safe_iff :
     toolSafeAt Nsq.Gen.ToolsToFileFn.toFileMaxAttempts ↔ Nsq.Gen.ToolsToFileFn.toFileMaxAttempts = 0 :=
   tool_safe_iff _
 
+/-- **the shipped tool is safe** (fix F43 is in the tree: the regenerated default is 0): whatever the tool as built from
+the current `main()` FINishes — with the operator passing no `max_attempts` option — is safe on disk. Fails to build on
+a tree without the fix. -/
+theorem shipped_tool_safe : toolSafeAt Nsq.Gen.ToolsToFileFn.toFileMaxAttempts :=
+  shipped_tool_safe_iff.mpr (by decide)
+
 /-- the operator's `--consumer-opt max_attempts,N` keeps the last word either way (it re-enables the give-up) -/
 theorem operator_can_reenable_giveup (n : Nat) (hn : 0 < n) : ¬ toolSafeAt n := tool_unsafe_with_giveup n hn
 
